@@ -223,12 +223,14 @@ def selection_tables(ctx, clause):
     return obs, rows
 
 
-SEL_PREFIXES = {"ex": "http://example.org/"}
+SEL_PREFIXES = {"ex": "http://example.org/", "": "http://default.org/"}        # the default (empty) prefix is a prefix like any other
 RDF_TYPE_C = "<" + RDF_TYPE_IRI + ">"
 # raw selector -> ("node", IRI) | ("pattern", [subject, predicate, object], variable) | "raise"
 SELECTOR_ROWS = [
     ("<http://example.org/n1>", ("node", "http://example.org/n1")),
     ("ex:n1", ("node", "http://example.org/n1")),
+    (":n2", ("node", "http://default.org/n2")),
+    ("{FOCUS :p _}", ("pattern", ["?f", "<http://default.org/p>", "?x"], "f")),
     ("{FOCUS a ex:C}", ("pattern", ["?f", RDF_TYPE_C, "<http://example.org/C>"], "f")),
     ("{FOCUS ex:p _}", ("pattern", ["?f", "<http://example.org/p>", "?x"], "f")),
     ("{_ ex:p FOCUS}", ("pattern", ["?x", "<http://example.org/p>", "?f"], "f")),
